@@ -158,6 +158,13 @@ func lzmaWriteCase(r *core.Run, prop string, p LZWCase) {
 			case errClass(err) != "EOF" || !bytes.Equal(out, want):
 				r.Violate(cs, site+" → round-trip-mismatch", desc, fmt.Sprintf("reader: %d bytes then %s, first difference at %d; stream %s", len(out), errStr(err), firstDiff(out, want), short(sink)), fmt.Sprintf("%d bytes then io.EOF", len(want)))
 			}
+			if len(data) <= 200000 {
+				// the reader's own DictCap must never shrink the window below what the header declares
+				out2, err2, _, rp2 := lzmaDecode(sink, 4096)
+				if rp2 != nil || errClass(err2) != "EOF" || !bytes.Equal(out2, want) {
+					r.Violate(cs, site+" → round-trip-mismatch(ReaderConfig.DictCap=4096)", desc, fmt.Sprintf("reader with DictCap 4096: %d bytes then %s", len(out2), errStr(err2)), fmt.Sprintf("%d bytes then io.EOF", len(want)))
+				}
+			}
 			// header never misstates the content length
 			if len(sink) >= 13 {
 				hs := binary.LittleEndian.Uint64(sink[5:13])
@@ -320,6 +327,8 @@ func lzmaWCases(r *core.Run, prop string) []LZWCase {
 			}
 		}
 	}
+	// writer dictionary above the reader's default 8 MiB with a repeat farther back than that
+	add(LZWCase{Cfg: LZCfg{DictCap: 12 << 20}, Shape: []Seg{{K: "T", Seed: 9, N: 3000}, {K: "R", Seed: 9, N: 8<<20 + 70000}, {K: "K", N: 3000}}})
 	if prop == "C07" {
 		return cases
 	}
